@@ -313,6 +313,9 @@ func init() {
 		},
 		"strings.Join": func(fr *frame, a []value) value {
 			elems := a[0].([]value)
+			if len(elems) == 1 {
+				return elems[0]
+			}
 			sep := strCells(a[1])
 			var c []value
 			for j, e := range elems {
